@@ -878,11 +878,14 @@ pub fn scenario_p(seed: u64) -> MadeP {
         ("instc", 3, true, vec![[192, 168, 1, 82]], vec![]),
         ("instc", 3, false, vec![], vec![v6("fd00:1::82"), v6("fe80::82")]),
     ];
+    let mixed_case = rng.chance(1, 2);
     let mut order: Vec<usize> = (0..plan.len()).collect();
     rng.shuffle(&mut order);
     for k in order {
         let (label, ifi, over4, a4, a6) = &plan[k];
-        let mut s = Svc::new(ty, label, &format!("{label}-host.local"), [0, 0, 0, 0]);
+        // (host names in the letter case their owners chose; address records may spell them differently again)
+        let host_spelling = if mixed_case { format!("{}{}-Host.local", label[..1].to_uppercase(), &label[1..]) } else { format!("{label}-host.local") };
+        let mut s = Svc::new(ty, label, &host_spelling, [0, 0, 0, 0]);
         s.v4 = a4.clone();
         s.v6 = a6.clone();
         let spec = table.iter().find(|i| i.index == *ifi).unwrap().clone();
@@ -939,7 +942,7 @@ pub fn scenario_p(seed: u64) -> MadeP {
             settle_ms = 0;
         }
     }
-    let desc = format!("interfaces={} loss={:?} hostname-search={}", table.len(), loss, host_chan.is_some());
+    let desc = format!("interfaces={} loss={:?} hostname-search={} mixed-case-hosts={mixed_case}", table.len(), loss, host_chan.is_some());
     w.run_for(settle_ms + 200 + rng.below(600));
     // later events: a second search (answered from the cache), a changed TXT of instc on the surviving link, a host name search
     chans.extend(w.browse(h, ty));
@@ -985,7 +988,7 @@ pub fn monitor_p(made: &MadeP, l: &mut Local) {
         let Ev::Obs { obs, .. } = &e.ev else { continue };
         let (label, listed): (String, Vec<(IpAddr, Vec<u32>)>) = match obs {
             Obs::Resolved(r) => (r.fullname.split('.').next().unwrap_or("").to_string(), resolved_addrs(r)),
-            Obs::AddrFound(name, set) => (name.split('-').next().unwrap_or("").to_string(), set.clone()),
+            Obs::AddrFound(name, set) => (name.split('-').next().unwrap_or("").to_lowercase(), set.clone()),
             _ => continue,
         };
         let _ = k;
